@@ -431,6 +431,8 @@ def check(run, fx, tier, floors=True):
     r12_p(run, fx)
     if floors or any(fx.body(p) is not None for p in VAR_LAYOUTS):
         r12_l(run, fx, floors)
+        import speclayout
+        speclayout.rule_records(run, fx, "R12-R", ["variations"], floors)
     r12_t(run, fx, floors)
     r12_v(run, fx)
     r12_d(run, fx)
